@@ -1,4 +1,4 @@
-use approx::{abs_diff_eq, abs_diff_ne};
+use approx::abs_diff_eq;
 use linfa_linalg::norm::Norm;
 #[cfg(not(feature = "blas"))]
 use linfa_linalg::qr::QRInto;
@@ -287,18 +287,18 @@ fn coordinate_descent<'a, F: Float>(
         let mut w_max = F::zero();
         let mut d_w_max = F::zero();
         for j in 0..n_features {
-            if abs_diff_eq!(norm_cols_x[j], F::zero()) {
+            if norm_cols_x[j] == F::zero() {
                 continue;
             }
             let old_w_j = w[j];
             let x_j: ArrayView1<F> = x.slice(s![.., j]);
-            if abs_diff_ne!(old_w_j, F::zero()) {
+            if old_w_j != F::zero() {
                 r.scaled_add(old_w_j, &x_j);
             }
             let tmp: F = x_j.dot(&r);
             w[j] = tmp.signum() * F::max(tmp.abs() - n_samples * l1_ratio * penalty, F::zero())
                 / (norm_cols_x[j] + n_samples * (F::one() - l1_ratio) * penalty);
-            if abs_diff_ne!(w[j], F::zero()) {
+            if w[j] != F::zero() {
                 r.scaled_add(-w[j], &x_j);
             }
             let d_w_j = (w[j] - old_w_j).abs();
@@ -344,13 +344,13 @@ fn block_coordinate_descent<'a, F: Float>(
         let mut w_max = F::zero();
         let mut d_w_max = F::zero();
         for j in 0..n_features {
-            if abs_diff_eq!(norm_cols_x[j], F::zero()) {
+            if norm_cols_x[j] == F::zero() {
                 continue;
             }
             let mut old_w_j = w.slice_mut(s![j, ..]);
             let x_j = x.slice(s![.., j]);
             let norm_old_w_j = old_w_j.dot(&old_w_j).sqrt();
-            if abs_diff_ne!(norm_old_w_j, F::zero()) {
+            if norm_old_w_j != F::zero() {
                 // r += outer(x_j, old_w_j)
                 general_mat_mul(
                     F::one(),
@@ -366,7 +366,7 @@ fn block_coordinate_descent<'a, F: Float>(
                     / (norm_cols_x[j] + n_samples * (F::one() - l1_ratio) * penalty)),
             );
             let norm_w_j = old_w_j.dot(&old_w_j).sqrt();
-            if abs_diff_ne!(norm_w_j, F::zero()) {
+            if norm_w_j != F::zero() {
                 // r -= outer(x_j, old_w_j)
                 general_mat_mul(
                     -F::one(),
